@@ -580,7 +580,9 @@ func (self Reflect) WriteFieldWithFieldName(fieldName string, m meta.Leafable, p
 		panic(fmt.Sprintf("Invalid property \"%s\" on %s", fieldName, elemVal.Type()))
 	}
 	if v == nil {
-		panic(fmt.Sprintf("No value given to set %s", m.Ident()))
+		// cleared, the zero value of a Go field stands for no value
+		fieldVal.SetZero()
+		return nil
 	}
 
 	switch v.Format() {
